@@ -88,6 +88,7 @@ type MeltAttempt struct {
 	Inputs  []JProof
 	Handler string
 	Paid    bool // a Lightning payment attributable to this attempt was made, or it returned PAID
+	PaySeq  int  // event sequence number of that pay call (0: none, e.g. internal settlement)
 	State   string
 }
 
@@ -126,7 +127,7 @@ type MintBook struct {
 	// EffMelted: secrets of melt requests that were answered with an error but had settled a mint quote
 	// internally and kept their inputs locked: the melt took effect, the inputs are gone for good
 	EffMelted map[string]string
-	OutQuote map[string]string // B_ -> mint quote it was submitted for in a refused mint request
+	OutQuote  map[string]string // B_ -> mint quote it was submitted for in a refused mint request
 }
 
 type Book struct {
@@ -694,6 +695,9 @@ func (b *Book) ingestMelt(o *HTTPObs, resp map[string]any) {
 		if c.Method == "SendPayment" || c.Method == "PayPartialAmount" {
 			if !strings.HasPrefix(c.Answer, "error:already") && !strings.HasPrefix(c.Answer, "failed:invoice already paid") {
 				paidLN = true
+				if c.Seq > at.PaySeq {
+					at.PaySeq = c.Seq
+				}
 				// C02: the fee limit authorised must not exceed the reserve the user paid
 				if c.Arg > q.Reserve {
 					b.Violate("C02.fee_limit", c.Method, "%s authorised fee limit %d sat for melt quote with fee_reserve %d (amount %d)", c.Method, c.Arg, q.Reserve, q.Amount)
@@ -792,12 +796,13 @@ func (b *Book) FinalizeMelts() {
 			q := m.LQ[qid]
 			// several requests may use one quote: a later request can only have made a pay call of its
 			// own if the earlier one's payment had failed for good (the backend refuses a second payment
-			// of an invoice that is in flight or paid), so the backend's final truth belongs to the LAST
-			// request that paid
-			lastPaid := -1
+			// of an invoice that is in flight or paid), so the backend's final truth belongs to the request
+			// that made the LAST pay call (by the order of the pay calls, not of the requests: a request
+			// that started later may have paid, failed and released before an earlier one got to pay)
+			lastPaid, lastSeq := -1, -1
 			for i, at := range q.Attempts {
-				if at.Paid {
-					lastPaid = i
+				if at.Paid && at.PaySeq > lastSeq {
+					lastPaid, lastSeq = i, at.PaySeq
 				}
 			}
 			for i, at := range q.Attempts {
@@ -993,4 +998,14 @@ func (b *Book) checkGenuine(m *MintBook, inputs []JProof, via string) {
 			b.Violate("C04.forged_accepted", via, "%s accepted an input that is not a genuine signature at its amount (%s): amount %d id %s", via, why, p.Amount, p.ID)
 		}
 	}
+}
+
+// HasViolation reports whether a violation of the given rule was recorded in this run.
+func (b *Book) HasViolation(rule string) bool {
+	for _, v := range b.Violations {
+		if v.Rule == rule {
+			return true
+		}
+	}
+	return false
 }
